@@ -10,7 +10,7 @@ from ..core import Phase, under_test, require
 ID = "C07"
 LEVEL = "exploration"
 RULE = (
-    "exhaustive enumeration: every N in 1..Nmax (quick 32, thorough 48) x "
+    "exhaustive enumeration: every N in 1..Nmax (quick 32, thorough 64) x "
     "every batchsize in 1..N+1, every num_batches in 1..N+2 and the default x "
     "realisation (1-D grid, a 2/3-factor grid with non-alphabetical argument "
     "names, a case list, cases x sub-grid) x shuffle in {False, True, 7} x "
@@ -172,7 +172,7 @@ def run_case(case):
 
 
 def enumerate_cases(tier, seed):
-    nmax = 32 if tier == "quick" else 48
+    nmax = 32 if tier == "quick" else 64
     for N in range(1, nmax + 1):
         specs = [None] + [["batchsize", s] for s in range(1, N + 2)] + \
                 [["num_batches", k] for k in range(1, N + 3)]
